@@ -29,6 +29,12 @@ let p_op (s : string) : op =
                                ks_views = List.map n_of_hex (split '+' vs) }
         | _ -> failwith "ks") (split ',' kss),
               List.map n_of_hex (split ',' removed), p_nodes current, p_nodes recreated)
+  | ["R"; kss; old; nw] ->
+    refresh_op (List.map (fun x -> match String.split_on_char ':' x with
+        | [k; tb; ts; vs] -> { ks_name = n_of_hex k; ks_tablet_based = (tb = "1");
+                               ks_tables = List.map n_of_hex (split '+' ts);
+                               ks_views = List.map n_of_hex (split '+' vs) }
+        | _ -> failwith "ks") (split ',' kss)) (p_nodes old) (p_nodes nw)
   | _ -> failwith ("op " ^ s)
 
 let join sep f l = if l = [] then "-" else String.concat sep (List.map f l)
